@@ -191,15 +191,33 @@ class _System:
                 m.clear(keepshape=True)
         return res
 
+    def _model(self):
+        """the user's 'model': one parent module holding the layer, the stand-alone monitors and the classifier
+        (trainers are checkpointed separately: 'the state dictionaries of a model and its trainers')"""
+        import torch.nn as nn
+
+        return nn.ModuleDict({name: m for name, m in self.pieces() if name != "trainer"})
+
     def save(self) -> bytes:
         buf = io.BytesIO()
-        torch.save({name: m.state_dict() for name, m in self.pieces()}, buf)
+        if self.cfg.get("container"):
+            sd = {"model": self._model().state_dict()}
+            if self.trainer is not None:
+                sd["trainer"] = self.trainer.state_dict()
+        else:
+            sd = {name: m.state_dict() for name, m in self.pieces()}
+        torch.save(sd, buf)
         return buf.getvalue()
 
     def load(self, blob: bytes):
         sd = torch.load(io.BytesIO(blob), weights_only=False)
-        for name, m in self.pieces():
-            m.load_state_dict(sd[name])
+        if self.cfg.get("container"):
+            self._model().load_state_dict(sd["model"])
+            if self.trainer is not None:
+                self.trainer.load_state_dict(sd["trainer"])
+        else:
+            for name, m in self.pieces():
+                m.load_state_dict(sd[name])
 
     def digest(self):
         """per-entry digests of every piece of persistent and derived state"""
@@ -246,7 +264,7 @@ class CheckpointWorld(World):
         cfg = {"kind": kind, "dt": rc.choice(DTS), "B": rc.choice([1, 1, 2]), "wseed": rc.randrange(1 << 30), "inplace": rc.random() < 0.5,
                "width": rc.choice([2, 3]), "nin": rc.choice([2, 3]), "trace": rc.choice(["cumulative", "nearest"]), "tdelayed": rc.random() < 0.5,
                "combine": rc.choice(["sum", "mean", "max"]), "lateral": rc.random() < 0.5,
-               "monitors": rc.choice([[], [], ["ema"], ["ca"], ["event"], ["trace", "ema"]]), "classifier": rc.random() < 0.3}
+               "monitors": rc.choice([[], [], ["ema"], ["ca"], ["event"], ["trace", "ema"]]), "classifier": rc.random() < 0.3, "container": rc.random() < 0.5}
         nconn = {"serial": 1, "biclique": 2, "recurrent": 3}[kind]
         cfg["conns"] = [{"skind": rc.choice(["delta", "deltaplus", "exp", "dexp"]), "delay_k": rc.choice([None, None, 1, 3]), "bias": rc.random() < 0.5, "tau": rc.choice([2.0, 5.0])}
                         for _ in range(nconn)]
@@ -280,7 +298,7 @@ class CheckpointWorld(World):
     def execute(self, desc, ctx):
         cfg = desc["config"]
         facts = {"kind": cfg["kind"], "trainer": cfg["trainer"], "neurons": "/".join(cfg["neurons"][: 1 if cfg["kind"] == "serial" else 2]), "ckind": cfg["ckind"],
-                 "inplace": cfg["inplace"], "monitors": ",".join(cfg["monitors"]), "classifier": cfg["classifier"],
+                 "inplace": cfg["inplace"], "monitors": ",".join(cfg["monitors"]), "classifier": cfg["classifier"], "container": bool(cfg.get("container")),
                  "delays": [c["delay_k"] for c in cfg["conns"]], "syn": [c["skind"] for c in cfg["conns"]]}
         ops = desc["ops"]
         T = len(ops)
